@@ -761,6 +761,18 @@ def check(facts, rep, tier, cfg):
     check_tables(facts, rep, crate)
     check_append(facts, rep, crate)
     check_constructors(facts, rep, crate)
+    # the decoder splits the buffer with CowBytes::split_to at positions up to and including its end (empty host / empty payload)
+    import rules_c20
+    cb = facts.crate("cow_bytes")
+    if cb is not None:
+        sub20 = type(rep)(rep.prop, rep.tier, rep.config)
+        rules_c20.check_r11_end_position_is_in_range(facts, sub20, cb)
+        rep.rule("C09.R9", "the buffer operations the decoder relies on accept a position equal to the length (= C20.R11): a frame whose "
+                           "variable part ends exactly at the end of the message (empty payload) decodes instead of panicking")
+        for i in sub20.instances:
+            rep.ok("C09.R9", i["key"], i["where"], i["detail"], nontrivial=False)
+        for v in sub20.violations:
+            rep.bad("C09.R9", v["key"].split("/", 1)[1], v["where"], v["msg"])
     cross_check_docs(rep)
     rep.rule("C09.S7", "no new process-wide mutable state (static cell / lock / once-cell) in the files this property is anchored in")
     import whomay
